@@ -6,6 +6,7 @@
 From AS Require Import Base.
 From AS.Model Require Import Table Ops.
 From AS.Proofs Require Import TableProofs PadProofs FindProofs GenFns.
+From AS.Proofs Require GenGuards.
 
 (* ansi_settings_at(i) = [] outside 0..len-1; inside, the replay of the table up to i *)
 Theorem C17_out_of_range : forall (s : astr) (k : Z),
@@ -59,3 +60,9 @@ Theorem C17_bounds_are_code : forall (len : nat) (v : option Z) (d : nat),
   Z.of_nat (slice_idx len v d) = AS.Gen.Fns.gen_slice_val_to_idx (Z.of_nat len) v (Z.of_nat d).
 Proof. exact slice_idx_is_code. Qed.
 Print Assumptions C17_bounds_are_code.
+
+(* ... and the validity test of the (inclusive) range IS the code's `if end < start: return (None, None)` *)
+Theorem C17_guard_is_code : forall start e : nat,
+  (e <? start)%nat = AS.Gen.Fns.gen_find_invalid (Z.of_nat start) (Z.of_nat e).
+Proof. exact GenGuards.find_guard_is_code. Qed.
+Print Assumptions C17_guard_is_code.
